@@ -105,12 +105,17 @@ def units(tier, seed=0):
                                             ttbr_mask=0xFFFFFF80),
                                        max_paths=500000, max_seconds=3000, weight=10))
             else:
-                us.append(UnitSpec('sd_walk/Nsym/%s' % tag, 'vf.c15', 'mk_sd',
-                                   dict(ispriv=ispriv, iswrite=iswrite, n_fixed=None, remap='sym'),
-                                   max_paths=2000000, max_seconds=7000, weight=50))
+                for n in (0, 1, 2, 7):
+                    us.append(UnitSpec('sd_walk/N%d/ee-sym/%s' % (n, tag), 'vf.c15', 'mk_sd',
+                                       dict(ispriv=ispriv, iswrite=iswrite, n_fixed=n, remap=INJECTIVE, ee_sym=True,
+                                            ttbr_mask=0xFFFFFF80), max_paths=2000000, max_seconds=7000, weight=20))
+                us.append(UnitSpec('sd_walk/N0/remap-sym/%s' % tag, 'vf.c15', 'mk_sd',
+                                   dict(ispriv=ispriv, iswrite=iswrite, n_fixed=0, remap='sym', ee_sym=False,
+                                        ttbr_mask=0xFFFFFF80), max_paths=2000000, max_seconds=10000, weight=50))
                 us.append(UnitSpec('sd_walk/nosec/N1/%s' % tag, 'vf.c15', 'mk_sd',
-                                   dict(ispriv=ispriv, iswrite=iswrite, n_fixed=1, remap='sym', sec=False),
-                                   max_paths=500000, max_seconds=3000, weight=10))
+                                   dict(ispriv=ispriv, iswrite=iswrite, n_fixed=1, remap=INJECTIVE, sec=False,
+                                        ee_sym=False, ttbr_mask=0xFFFFFF80),
+                                   max_paths=500000, max_seconds=5000, weight=10))
     us.append(UnitSpec('mmu_off', 'vf.c15', 'mk_off', {}))
     return us
 
@@ -123,7 +128,7 @@ META = {
                    'symbolic; privilege and direction case-split. Output address (40 bit), NS, memory type/attributes, '
                    'or the fault with DFSR.{FS,domain,WnR} and DFAR, are compared with the B3 pseudocode oracle.',
     'bounds': ['short-descriptor format, stage 1, SCTLR.TRE = 1, hardware access-flag update off',
-               'quick: TTBCR.N in {0,2}; thorough: N symbolic (0..7)'],
+               'quick: TTBCR.N in {0,2}, SCTLR.EE = 0, one injective PRRR/NMRR setting, TTBR attribute bits [6:0] fixed; thorough: N in {0,1,2,7} with EE symbolic, PRRR/NMRR fully symbolic for N = 0, and a no-security-extension configuration'],
     'outside': ['SCTLR.TRE = 0 (remap_regs_have_reset_values is a NotImplementedError stub)', 'hardware access flag '
                 'update (mem.set_bits stub)', 'long-descriptor format and stage 2 (LPAE / virtualization): every fault '
                 'path there ends in the tlb_lookup_came_from_cache_maintenance stub', 'reserved TRn=11 / region 6'],
